@@ -176,3 +176,25 @@ Section Hom.
     lfsr_run B tb zb taps k (map h (fst st), map h (snd st)).
   Proof. induction k; intros st; simpl; [reflexivity|]. rewrite IHk, lfsr_shift_hom. reflexivity. Qed.
 End Hom.
+
+(* untrusted diagnosis helper: where do two lists of affine forms differ?
+   Some (output bit, 0)      the constant terms differ      -> the all-zero input distinguishes
+   Some (output bit, S v)    the coefficient of variable v differs (constants equal) -> unit vector e_v does *)
+Fixpoint list_diff (k : nat) (a b : list bool) : option nat :=
+  match a, b with
+  | x :: a', y :: b' => if Bool.eqb x y then list_diff (S k) a' b' else Some k
+  | [], [] => None
+  | _, _ => Some k
+  end.
+Fixpoint aff_diff (k : nat) (fs gs : list aff) : option (nat * nat) :=
+  match fs, gs with
+  | f :: fs', g :: gs' =>
+      if Bool.eqb (snd f) (snd g) then
+        match list_diff 0 (fst f) (fst g) with
+        | Some v => Some (k, S v)
+        | None => aff_diff (S k) fs' gs'
+        end
+      else Some (k, 0)
+  | [], [] => None
+  | _, _ => Some (k, 0)
+  end.
